@@ -58,6 +58,8 @@ def run(ctx):
   rule_formula(ctx)
   rule_pure(ctx)
   rule_ladder(ctx)
+  rule_template(ctx)
+  ctx.expect("R-C12-TEMPLATE", 3, "border test, default set, validation")
   ctx.expect("R-C12-LADDER", 3, "loop condition, guard agreement, matrix shape")
   ctx.expect("R-C12-PURE", 56, "every function of the five modules behind the statistical tests")
   ctx.expect("R-C12-FORMULA", 20, "statistic formulas of ten tests")
@@ -1076,3 +1078,111 @@ def rule_ladder(ctx, R="R-C12-LADDER"):
       oks = False
   ctx.record(R, f.where, "matrix = low size^2 bits in rows of size", oks, "SplitSequence(bits & (2^(size^2) - 1), size^2, size)" if oks else
              "the matrix handed to the rank computation is not the size x size prefix of the bit string")
+
+
+# ------------------------------------------------------------------ TEMPLATE: aperiodic templates of section 2.7
+def rule_template(ctx):
+  R = "R-C12-TEMPLATE"
+  repo = ctx.repo
+  f = repo.func(MOD, "IsNonOverlappingTemplate")
+  w = sym.Walker(repo, f)
+  w.run()
+  t, m = [P("param", x) for x in f.params()[:2]]
+  loops = [i for i in w.loop_info.values() if i["visits"]]
+  probs = []
+  if len(loops) != 1 or isinstance(loops[0]["iter"], Seq):
+    raise Incomplete("IsNonOverlappingTemplate: expected one loop over the border lengths", f.where)
+  info = loops[0]
+  vis = info["visits"][0]
+  it = as_poly(info["iter"]).as_atom()
+  k = as_poly(vis["k"])
+  # border lengths 1 .. m-1, each exactly once
+  if it is not None and it.kind == "range" and len(it.args) == 2 and as_poly(it.args[0]).as_int() == 1 and as_poly(it.args[1]) == m:
+    i = k + 1
+  elif it is not None and it.kind == "range" and len(it.args) == 3 and as_poly(it.args[2]).as_int() == -1 and as_poly(it.args[0]) == m - 1 and as_poly(it.args[1]).as_int() == 0:
+    i = m - 1 - k
+  else:
+    i = None
+    probs.append("the border lengths tried are %r, not 1 .. m-1: a template whose only border has an untested length is accepted as aperiodic" % (as_poly(info["iter"]),))
+  if i is not None:
+    one = Poly.const(1)
+    pre = lambda j: sym.mk("shr", t, m - j)                                  # the j leading bits
+    suf = lambda j: sym.mk("band", t, sym.mk("shl", one, j) - 1)              # the j trailing bits
+    n_ret = 0
+    for kind, val, s, since, v2 in info["body_paths"]:
+      newf = s.facts[len(vis["head"].facts):]
+      eqs = [fc for fc in newf if fc[0] == "cmp" and fc[1] in ("Eq", "NotEq") and not isinstance(fc[2], Seq) and not isinstance(fc[3], Seq)]
+      if len(eqs) != 1:
+        probs.append("a pass of the loop does not compare one prefix with one suffix")
+        continue
+      a, b = as_poly(eqs[0][2]), as_poly(eqs[0][3])
+      good = any({repr(a), repr(b)} == {repr(pre(j)), repr(suf(j))} for j in (i, m - i))
+      if not good:
+        probs.append("the comparison is not `leading j bits == trailing j bits` for the border length j of this pass (j = i or m - i)")
+      if kind == "return":
+        n_ret += 1
+        if eqs[0][1] != "Eq" or not (isinstance(val, Const) and val.v is False):
+          probs.append("a border does not make the template overlapping (return False under equality)")
+      elif kind == "fall":
+        if eqs[0][1] != "NotEq":
+          probs.append("the loop goes on although a border was found")
+      else:
+        probs.append("border loop left by %s" % kind)
+    if n_ret != 1:
+      probs.append("expected exactly one early return")
+    fin = [tm for tm in w.terminals if tm[0] == "return" and not any(tm[2] is bp[2] for bp in info["body_paths"])]
+    if not fin or not all(isinstance(v_, Const) and v_.v is True for k_, v_, s_ in fin):
+      probs.append("a template without any border is not reported aperiodic (return True after the loop)")
+  ctx.record(R, f.where, "aperiodic <=> no border of length 1 .. m-1", not probs, "; ".join(sorted(set(probs))) or
+             "every j in 1 .. m-1: leading j bits vs trailing j bits; False at the first border, True otherwise")
+  # ---- uses: default template set = all aperiodic m-bit templates; explicit overlapping templates are rejected
+  f2 = repo.func(MOD, "NonOverlappingTemplateMatching")
+  w2 = sym.Walker(repo, f2)
+  w2.run()
+  apps = [e for e in w2.events if e.kind == "mutate" and e.data["method"] == "append"]
+  okd, why = bool(apps), []
+  for e in apps:
+    arg = as_poly(e.data["args"][0]) if e.data["args"] else None
+    call = [fc for fc in e.facts if fc[0] == "truthy" and as_poly(fc[1]).as_atom() is not None and as_poly(fc[1]).as_atom().kind == "call"
+            and as_poly(fc[1]).as_atom().args[0] == P("lit", MOD + ":IsNonOverlappingTemplate")]
+    if not call or as_poly(call[-1][1]).as_atom().args[1] != arg:
+      okd = False
+      why.append("a template is added without passing IsNonOverlappingTemplate for itself")
+  # the candidate b of every append runs over range(2^M) for the very M handed to the predicate
+  full = bool(apps)
+  for e in apps:
+    call = [fc for fc in e.facts if fc[0] == "truthy" and as_poly(fc[1]).as_atom() is not None and as_poly(fc[1]).as_atom().kind == "call"
+            and as_poly(fc[1]).as_atom().args[0] == P("lit", MOD + ":IsNonOverlappingTemplate")]
+    if not call:
+      full = False
+      continue
+    b, Mv = as_poly(call[-1][1]).as_atom().args[1:3]
+    okl = False
+    for i_ in w2.loop_info.values():
+      for vis in i_["visits"]:
+        if isinstance(vis["iter"], Seq) or as_poly(vis["k"]) != as_poly(b):
+          continue
+        ra = as_poly(vis["iter"]).as_atom()
+        if ra is None or ra.kind != "range":
+          continue
+        stop = as_poly(ra.args[0]) if len(ra.args) == 1 else (as_poly(ra.args[1]) if len(ra.args) == 2 and as_poly(ra.args[0]).as_int() == 0 else None)
+        if stop is None:
+          continue
+        mi = as_poly(Mv).as_int()
+        if mi is not None:
+          okl = okl or stop.as_int() == 2 ** mi
+        else:
+          okl = okl or stop in (sym.mk("pow", Poly.const(2), as_poly(Mv)), sym.mk("shl", Poly.const(1), as_poly(Mv)))
+    full = full and okl
+  if not full:
+    okd = False
+    why.append("the default set does not range over all 2^m candidate templates")
+  ctx.record(R, f2.where, "default templates = all aperiodic m-bit words", okd, "; ".join(sorted(set(why))) or "range(2^m) filtered by IsNonOverlappingTemplate(b, m)")
+  f3 = repo.func(MOD, "NonOverlappingTemplateMatchingImpl")
+  w3 = sym.Walker(repo, f3)
+  w3.run()
+  rs = [e for e in w3.events if e.kind == "raise" and e.node is not None and e.node.exc is not None]
+  okv = any(any(fc[0] == "falsy" and as_poly(fc[1]).as_atom() is not None and as_poly(fc[1]).as_atom().kind == "call" and
+                as_poly(fc[1]).as_atom().args[0] == P("lit", MOD + ":IsNonOverlappingTemplate") for fc in e.facts) for e in rs)
+  ctx.record(R, f3.where, "explicit overlapping templates are rejected", okv, "raise under `not IsNonOverlappingTemplate(b, m)`" if okv else
+             "no raise is conditioned on IsNonOverlappingTemplate being false for a supplied template")
